@@ -7,7 +7,7 @@ import (
 	"unsafe"
 	//"github.com/metrico/qryn/writer/fingerprints_limiter"
 	"github.com/metrico/qryn/writer/model"
-	//customErrors "github.com/metrico/qryn/writer/utils/errors"
+	customErrors "github.com/metrico/qryn/writer/utils/errors"
 	"github.com/metrico/qryn/writer/utils/logger"
 	"github.com/metrico/qryn/writer/utils/numbercache"
 	"google.golang.org/protobuf/proto"
@@ -367,6 +367,14 @@ func (p *parserDoer) onEntries(labels [][]string, timestampsNS []int64,
 
 func (p *parserDoer) onSpan(traceId []byte, spanId []byte, timestampNs int64, durationNs int64,
 	parentId string, name string, serviceName string, payload []byte, key []string, val []string) error {
+	// trace_id and span_id are FixedString(16) / FixedString(8) columns. An id of any other
+	// length (absent, or an OTLP span with malformed ids) must be refused here: the column
+	// append panics on it, in a goroutine nobody recovers, after part of the row is written.
+	if len(traceId) != 16 || len(spanId) != 8 {
+		return customErrors.New400Error(fmt.Sprintf(
+			"span %q: trace id must be 16 bytes and span id 8 bytes, got %d and %d",
+			name, len(traceId), len(spanId)))
+	}
 	p.spans.MTraceId = append(p.spans.MTraceId, traceId)
 	p.spans.MSpanId = append(p.spans.MSpanId, spanId)
 	p.spans.MTimestampNs = append(p.spans.MTimestampNs, timestampNs)
